@@ -456,6 +456,19 @@ int main(int argc, char **argv)
     ALTER("PolynomEntry::SetCoefficient", "n_poly", PolynomEntry, e->SetCoefficient(7.25, 2), (G.u.polynom.a[2] = 7.25, G.u.polynom.ca[2][0] = 7.25, G.u.polynom.ca[2][1] = 0));
     ALTER("MplexEntry::SetCountVal", "n_mplex", MplexEntry, e->SetCountVal(1), G.u.mplex.count_val = 1);
     ALTER("MplexEntry::SetPeriod", "n_mplex", MplexEntry, e->SetPeriod(4), G.u.mplex.period = 4);
+    /* every string (scalar field code) overload, with CONST codes and CARRAY element codes; the object's getters
+     * must afterwards show what the library holds */
+    ALTER("LincomEntry::SetScale(str)", "n_lincom", LincomEntry, e->SetScale("n_const", 0), (G.scalar[0] = strdup("n_const"), G.scalar_ind[0] = -1));
+    ALTER("LincomEntry::SetOffset(str)", "n_lincom", LincomEntry, e->SetOffset("n_carray<3>", 1), (G.scalar[GD_MAX_LINCOM + 1] = strdup("n_carray"), G.scalar_ind[GD_MAX_LINCOM + 1] = 3));
+    ALTER("LincomEntry::SetOffset(str,0)", "n_lincom", LincomEntry, e->SetOffset("n_carray<4>", 0), (G.scalar[GD_MAX_LINCOM] = strdup("n_carray"), G.scalar_ind[GD_MAX_LINCOM] = 4));
+    ALTER("LincomEntry::SetScale(str,1)", "n_lincom", LincomEntry, e->SetScale("n_carray<1>", 1), (G.scalar[1] = strdup("n_carray"), G.scalar_ind[1] = 1));
+    ALTER("PolynomEntry::SetCoefficient(str)", "n_poly", PolynomEntry, e->SetCoefficient("n_carray<2>", 1), (G.scalar[1] = strdup("n_carray"), G.scalar_ind[1] = 2));
+    ALTER("PolynomEntry::SetCoefficient(str,3)", "n_poly", PolynomEntry, e->SetCoefficient("n_const", 3), (G.scalar[3] = strdup("n_const"), G.scalar_ind[3] = -1));
+    ALTER("RecipEntry::SetDividend(str)", "n_recip", RecipEntry, e->SetDividend("n_carray<0>"), (G.scalar[0] = strdup("n_carray"), G.scalar_ind[0] = 0));
+    ALTER("MplexEntry::SetCountVal(str)", "n_mplex", MplexEntry, e->SetCountVal("n_carray<1>"), (G.scalar[0] = strdup("n_carray"), G.scalar_ind[0] = 1));
+    ALTER("MplexEntry::SetPeriod(str)", "n_mplex", MplexEntry, e->SetPeriod("n_const"), (G.scalar[1] = strdup("n_const"), G.scalar_ind[1] = -1));
+    ALTER("RawEntry::SetSamplesPerFrame(str)", "n_raw", RawEntry, e->SetSamplesPerFrame("n_carray<2>", 0), (G.scalar[0] = strdup("n_carray"), G.scalar_ind[0] = 2));
+    ALTER("SBitEntry::SetFirstBit(str)", "sbit", SBitEntry, e->SetFirstBit("n_carray<0>"), (G.scalar[0] = strdup("n_carray"), G.scalar_ind[0] = 0));
     ALTER("MultiplyEntry::SetInput", "n_mul", MultiplyEntry, e->SetInput("n_phase", 1), (free(G.in_fields[1]), G.in_fields[1] = strdup("n_phase")));
     ALTER("DivideEntry::SetInput", "n_div", DivideEntry, e->SetInput("n_phase", 0), (free(G.in_fields[0]), G.in_fields[0] = strdup("n_phase")));
     ALTER("ConstEntry::SetType", "n_const", ConstEntry, e->SetType(Int64), G.u.scalar.const_type = GD_INT64);
@@ -465,6 +478,7 @@ int main(int argc, char **argv)
     { gd_triplet_t th; th.i = 9;
       ALTER("WindowEntry::SetThreshold", "n_win", WindowEntry, e->SetThreshold(th), G.u.window.threshold.i = 9);
       ALTER("WindowEntry::SetWindOp", "n_win", WindowEntry, e->SetWindOp(WindOpLt), G.u.window.windop = GD_WINDOP_LT); }
+      ALTER("WindowEntry::SetThreshold(str)", "n_win", WindowEntry, e->SetThreshold("n_carray<4>"), (G.scalar[0] = strdup("n_carray"), G.scalar_ind[0] = 4));
     { Entry *e = X->Entry("n_phase"); if (e) {
         S x = num(e->Rename("n_phase2", 0)); x += str(e->Name()); S c = num(gd_rename(C, "n_phase", "n_phase2", 0)); c += S("\"n_phase2\"");
         BOTH("Entry::Rename", x, c); cmp("Entry::Rename library", centry(X->D, "n_phase2"), centry(C, "n_phase2"));
